@@ -1,7 +1,7 @@
 """C18 cold-start runner: a fresh interpreter whose *first* parso actions are the calls of one history, either
 sequentially or in threads under the baton scheduler (no warm-up of any kind).  First-use memoisation that is
 order dependent or not atomic shows up as a difference from the warm, sequential results.
-stdin: {"calls": [...], "schedule": [...], "threaded": bool}   stdout: JSON list of results"""
+stdin: {"calls": [...], "schedule": [...], "threaded": bool, "abort_first": n or null}   stdout: JSON list of results"""
 import json
 import os
 import sys
@@ -12,6 +12,11 @@ def main():
     from .common import REPO          # sets sys.path, imports parso (nothing is parsed or loaded yet)
     from .calls import run_call
     calls = case['calls']
+    if case.get('abort_first'):
+        # the very first use of the library in this process is interrupted at its n-th line (one-time initialisation of tables and
+        # patterns happens there); the caller catches that and goes on
+        from .common import aborted
+        aborted(lambda: run_call(calls[0]), case['abort_first'])
     if case.get('threaded') and len(calls) >= 2:
         from .sched import Sched
         root = os.path.join(os.path.abspath(REPO), 'parso') + os.sep
